@@ -238,8 +238,9 @@ def formatter_class(run, m, F, E):
     n = 0
     for name in F.lib:
         f = m.func(name)
-        if not re.match(r'^ST::float_formatter<(float|double)>::format\((float|double), char\)$', f.dem):
+        if not re.match(r'^ST::float_formatter<(float|double)>::format\((float|double), char(, [^()]*)?\)$', f.dem):
             continue
+        extra_params = f.params[3:]
         n += 1
         I = Interp(m, F, E, FloatHooks(m))
         st = State()
@@ -249,7 +250,11 @@ def formatter_class(run, m, F, E):
         obj.lazy = True
         st.objs['FF'] = obj
         ch = I.fresh_int(st, 8, 'fmtchar')
-        outs = I.run(I.start(f, [PtrV('FF'), TopV('value'), ch], st))
+        xargs = []
+        for k2, p2 in enumerate(extra_params):
+            t2 = p2['ty']
+            xargs.append(I.fresh_int(st, int(t2[1:]), 'x%d' % k2) if t2[1:].isdigit() else TopV('x%d' % k2))
+        outs = I.run(I.start(f, [PtrV('FF'), TopV('value'), ch] + xargs, st))
         problems, und = [], []
         accepted = []
         for o in outs:
@@ -277,7 +282,10 @@ def formatter_class(run, m, F, E):
                 if items is None:
                     und.append('conversion string not reconstructed')
                 elif not (len(items) == 2 and items[0] == ('c', ord('%')) and items[1][0] == 's' and items[1][1] == ch.lin):
-                    problems.append(('R13.2', 'conversion string is %s, expected {\'%%\', format, 0}' % show(items), 'conv'))
+                    if extra_params:
+                        und.append('conversion string %s of a formatter with further parameters: not compared' % show(items))
+                    else:
+                        problems.append(('R13.2', 'conversion string is %s, expected {\'%%\', format, 0}' % show(items), 'conv'))
             accepted.append(s2.arange(ch.lin.t[0][0]))
         # accepted conversion characters: exactly efgEFG
         ok_chars = set()
